@@ -536,7 +536,7 @@ func (x *exec) insertColumn(pos int, data []string, width int, app bool) {
 		if pos < 0 || pos > sh.G {
 			want = mustErr
 		}
-		cands = append(cands, cand{kfColStruct, []string{"C09.G3.vmerge", "C09.G4.cols"}})
+		cands = append(cands, cand{kfColStruct, []string{"C09.G3.vmerge"}})
 	}
 	if !x.call(want, "C09.G4.decision", cands, func() error {
 		if app {
@@ -629,7 +629,7 @@ func (x *exec) deleteColumns(s, e int, single bool) {
 		if want == mustOK {
 			want = either
 		}
-		cands = append(cands, cand{kfColStruct, []string{"C09.G3", "C09.G4.cols"}})
+		cands = append(cands, cand{kfColStruct, []string{"C09.G3.span", "C09.G3.nonempty", "C09.G3.vmerge"}})
 	}
 	if !x.call(want, "C09.G4.decision", cands, func() error {
 		if single {
